@@ -67,6 +67,9 @@ UNITS = {
         items=[
             I(RAW, None, 'bucket_mask_to_capacity'),
             I(RAW, r'^impl RawTableInner$', 'reserve_rehash_inner', impl='RawTableInner'),
+            I(RAW, r'^impl RawTableInner$', 'with_capacity', impl='RawTableInner'),
+            I(RAW, r'^impl < T , A : Allocator > RawTable < T , A >$', 'reserve', impl='RawTable<T>', key='RawTable::reserve'),
+            I(RAW, r'^impl < T , A : Allocator > RawTable < T , A >$', 'try_reserve', impl='RawTable<T>', key='RawTable::try_reserve'),
         ],
     ),
     # C01 / C06 / C14: RawTable::insert and insert_in_slot glue against the contracts of what they call
